@@ -422,12 +422,26 @@ func (r *Rule) transformMultiMatchArg(arg types.MatchData) ([]string, []error) {
 	return r.executeTransformationsMultimatch(arg.Value())
 }
 
+// transformationCacheable reports whether transformation results for values of the variable may be
+// shared between rules of a phase. The cache key identifies a value by collection, key and position, which
+// only identifies its content for collections that do not change while the rules of a phase run: TX (setvar,
+// captures), the MATCHED_* collections and RULE (rewritten for every rule), ENV (setenv) and HIGHEST_SEVERITY
+// are rewritten by rule evaluation itself.
+func transformationCacheable(v variables.RuleVariable) bool {
+	switch v {
+	case variables.TX, variables.MatchedVar, variables.MatchedVarName, variables.MatchedVars,
+		variables.MatchedVarsNames, variables.Rule, variables.Env, variables.HighestSeverity:
+		return false
+	}
+	return true
+}
+
 func (r *Rule) transformArg(arg types.MatchData, argIdx int, cache map[transformationKey]transformationValue) (string, []error) {
 	switch {
 	case len(r.transformations) == 0:
 		return arg.Value(), nil
-	case arg.Variable().Name() == "TX":
-		// no cache for TX
+	case !transformationCacheable(arg.Variable()):
+		// no cache for collections that rule evaluation itself rewrites within a phase
 		arg, errs := r.executeTransformations(arg.Value())
 		return arg, errs
 	default:
